@@ -357,7 +357,10 @@ fn proptest_config(cases: u32) -> Config {
     c.source_file = None;
     c.test_name = None;
     c.max_shrink_iters = 4096;
-    c.max_shrink_time = 0;
+    // shrinking a failure that needs a big case (a package database of hundreds of directories)
+    // can take minutes at 4096 steps; the verdict does not depend on how far shrinking got, only
+    // the size of the stored counter-example does
+    c.max_shrink_time = 45_000;
     c.verbose = 0;
     c.rng_algorithm = RngAlgorithm::ChaCha;
     c.rng_seed = RngSeed::Fixed(0);
